@@ -216,7 +216,8 @@ def main(argv=None):
         if harness_error:
             print(harness_error)
         for e in tot.errors[:3]:
-            print(json.dumps(e)[:3000])
+            print(json.dumps({"config": e.get("config"), "error": e.get("error")})[:600])
+            print("   ..." + str(e.get("trace", ""))[-700:])
         rc = rc or 2
     if rc == 0:
         if tot.validated == 0 or len(tot.outcome_hashes) < 2 or tot.nontrivial < 2:
